@@ -406,6 +406,7 @@ var stabVariants = []string{
 	"distinct element timestamps, equal commit times inside one commit",
 	"node ids 2^40-1, 2^40-2, ... (the largest the 40 ref bits of osm.FeatureID hold)",
 	"every later version of the first child is stored twice (same version and times, another position)",
+	"clock skew: the middle version of every child carries the instant of the version four before it (the history is stored in version order, its times are not ascending)",
 }
 
 func stabilityV(list []int, later []int, same []int, variant int) input {
@@ -438,6 +439,9 @@ func stabilityV(list []int, later []int, same []int, variant int) input {
 						run++
 					} else {
 						t = t0.Add(time.Duration(v*100+c) * time.Second)
+						if variant == 10 && v == nv/2+2 && v > 5 {
+							t = t0.Add(time.Duration((v-4)*100+c) * time.Second)
+						}
 						run = 0
 					}
 				}
